@@ -195,6 +195,12 @@ def generate(seed: int, run: int, tier: str) -> dict:
             ops.append({"op": "jump", "prefix": rng.choice(["SYM", "SYM", "FUN", "QTY"]), "to": _boundary(rng)})
         if style == "mixed" and rng.random() < 0.2:
             ops.append({"op": "create", "kind": rng.choice(["Symbol", "Function", "Quantity", "CoordinateSystem", "IndexedSymbol", "VectorSymbol", "Symbolic"]), "k": rng.choice([1, 3, 10, 50])})
+        if rng.random() < 0.05:
+            ops.append({"op": "failed_docs_page", "m": rng.choice(mods)})
+        if rng.random() < 0.06:
+            ops.append({"op": "churn_dims", "k": rng.choice([20, 100, 400])})
+        if rng.random() < 0.05:
+            ops.append({"op": "create", "kind": "Point", "k": rng.choice([1, 3])})
         if rng.random() < 0.12:
             ops.append({"op": "docs_page", "m": m})  # documented before it is ever imported
         ops.append({"op": "import", "m": m})
@@ -320,7 +326,7 @@ def systematic_jobs(tier: str, seed: int, ctx) -> list[dict]:
             jobs.append(_job(seed, f"sys:{i}:{v}", ENV0, ops))
         # the module is imported first, *then* the user creates objects of their own (wrappers, symbols,
         # functions, quantities whose display names coincide with catalogue ones), then the module is used
-        jobs.append(_job(seed, f"sys:{i}:after", ENV0, [{"op": "import", "m": m}, {"op": "create", "kind": "Symbolic", "k": 1}, {"op": "create", "kind": "Function", "k": 2}, {"op": "create", "kind": "Quantity", "k": 3}, {"op": "create", "kind": "IndexedSymbol", "k": 2}, {"op": "observe", "m": m}]))
+        jobs.append(_job(seed, f"sys:{i}:after", ENV0, [{"op": "import", "m": m}, {"op": "create", "kind": "Symbolic", "k": 1}, {"op": "create", "kind": "Function", "k": 2}, {"op": "create", "kind": "Quantity", "k": 3}, {"op": "create", "kind": "IndexedSymbol", "k": 2}, {"op": "create", "kind": "Point", "k": 2}, {"op": "churn_dims", "k": 40}, {"op": "observe", "m": m}]))
     return jobs
 
 
@@ -349,6 +355,22 @@ def _create(kind: str, k: int) -> None:
         elif kind == "VectorSymbol":
             from symplyphysics.core.experimental.vectors import VectorSymbol  # pylint: disable=import-outside-toplevel
             keep.append(VectorSymbol("junk"))
+        elif kind == "Point":
+            # the user's own points: created empty, then filled through the setters
+            from symplyphysics.core.points.cartesian_point import CartesianPoint  # pylint: disable=import-outside-toplevel
+            from symplyphysics.core.points.cylinder_point import CylinderPoint  # pylint: disable=import-outside-toplevel
+            from symplyphysics.core.points.sphere_point import SpherePoint  # pylint: disable=import-outside-toplevel
+            from symplyphysics.core.points.point import Point  # pylint: disable=import-outside-toplevel
+            p1 = CartesianPoint()
+            p1.x = 3 + i
+            p1.z = 7
+            p2 = Point()
+            p2.set_coordinate(1, 5)
+            p3 = CylinderPoint()
+            p3.radius = 2
+            p4 = SpherePoint()
+            p4.radius = 4
+            keep.extend([p1, p2, p3, p4])
         elif kind == "Symbolic":
             # the user's own wrappers (average, finite difference, differentials) around their own
             # symbols, whose display names coincide with those of the shared catalogue symbols
@@ -489,6 +511,17 @@ def child_run(job: dict) -> dict:
             faults["docs_page_before"] = faults.get("docs_page_before", 0) + 1
             if not global_parameters.evaluate and "docs_page" not in flag_events:
                 flag_events["docs_page"] = f"global_parameters.evaluate is False after generating the documentation page of {op['m']} ({outcome})"
+        elif kind == "failed_docs_page":
+            # the documentation page of a law whose source raises half-way; the caller catches it
+            outcome = observe.failed_docs_page(op.get("m") or "symplyphysics.laws.dynamics.acceleration_is_force_over_mass")
+            global_parameters.evaluate = True  # an aborted page leaves the flag off; the user resets it by hand
+            faults["failed_docs_page"] = faults.get("failed_docs_page", 0) + 1
+        elif kind == "churn_dims":
+            # many temporary quantities and dimension expressions are created, printed, converted and dropped
+            outcome = observe.churn_dimensions(int(op.get("k", 100)))
+            faults["churn_dims"] = faults.get("churn_dims", 0) + 1
+            if outcome.startswith("WRONG") and "churn" not in flag_events:
+                flag_events["churn"] = outcome  # an absolute failure of the library inside a history op
         elif kind == "prepare_args":
             mod, _err = observe.try_import(op["m"])
             if mod is not None:
@@ -721,6 +754,9 @@ def judge(job: dict, res: dict, ctx) -> list[dict]:
             ctx["suspects"].update(sus)
             ctx["inc"] += len(inc)
     for kind_, detail_ in (r.get("flag_events") or {}).items():
+        if kind_ == "churn":
+            out.append({"oracle": "history-op", "subject": "quantity-api", "detail": detail_, "cls": "C03|history-op|quantity-api"})
+            continue
         out.append({"oracle": "flag", "subject": f"evaluate-after-{kind_}", "detail": detail_, "cls": f"C03|flag|evaluate-after-{kind_}"})
     if not r.get("flag_default", True):
         out.append({"oracle": "flag", "subject": "evaluate", "detail": "global_parameters.evaluate is not default after the history", "cls": "C03|flag|evaluate"})
